@@ -6,3 +6,5 @@ rsync -a --exclude target --exclude .git /repo/ $T/repo/
 (cd $T/repo && patch -p1 -s -i "$P") || { echo "patch failed"; rm -rf $T; exit 2; }
 for c in "$@"; do CBV_REPO=$T/repo CBV_EVIDENCE=$T/ev CBV_TAG=-try$(basename $T | tr -dc "A-Za-z0-9") $(dirname $(dirname $(realpath $0)))/cbv.py check $c 2>&1 | grep -E "tier=|rule=|ERROR|Error|Trace|line " | cut -c1-330 | head -${LINES_MAX:-8}; done
 rm -rf $T
+# the scratch copy had its own build and fact directories under .work (tagged with the copy's name): remove them too
+V=$(dirname $(dirname $(realpath $0))); TAG=try$(basename $T | tr -dc "A-Za-z0-9"); rm -rf $V/.work/*-$TAG $V/.work/*-$TAG.lock $V/.work/facts/*-$TAG 2>/dev/null
